@@ -205,6 +205,7 @@ def inflate_dict(ck, P):
 def run(ck):
     P = prog("K1")
     ck.configs.add("K1")
+    window_refresh_source(ck, P)
     # round 10: a dictionary longer than the window keeps its tail in every branch of Window::extend
     from . import c08 as _c08s
     _c08s.extend_siblings(ck, P)
@@ -234,3 +235,36 @@ EXPLANATION = EXPLANATION + " " + (
 # session 5 (round 10)
 EXPLANATION = EXPLANATION + " " + (
     'SIB/extend-fold (shared with C08): every branch of Window::extend keeps the same part of a slice longer than the window (the tail), so a long dictionary is the same on both sides.')
+
+
+def window_refresh_source(ck, P, R="GUARD/window-refresh-source"):
+    """deflate_stored copies what it sent straight to the output back into the window so that later blocks (and
+    deflateGetDictionary) see the most recent history: `memcpy(window, next_in - w_size, w_size)` when a whole window or more was
+    used, `memcpy(window + strstart, next_in - used, used)` otherwise.  In both, the source starts exactly as many bytes before
+    next_in as the copy is long - the *last* bytes consumed; any other offset takes older input for the history."""
+    from .. import linear
+    f = P.fn(Z + "deflate::algorithm::stored::deflate_stored")
+    if not ck.anchor("fn deflate_stored", f):
+        return
+    ck.use_fn(f)
+    calls = f.live_calls(r"Window::copy_and_initialize$")
+    if not ck.anchor("window refresh copies in deflate_stored", len(calls) >= 2):
+        return
+    f._stop_named = False
+    for i, c in enumerate(calls):
+        a = f.call_args(c)
+        rng, src = a[1], mir.strip_casts(a[2])
+        ok = False
+        detail = "unrecognised shape"
+        if rng[0] == "agg" and src[0] == "call" and isinstance(src[1], str) and src[1].split("::")[-1] in ("wrapping_sub", "sub", "offset"):
+            flds = dict(rng[3])
+            if "start" in flds and "end" in flds and len(src[2]) == 2 and mir.mentions_field(src[2][0], "next_in"):
+                ln = linear.linear(f, flds["end"])
+                linear.linear(f, flds["start"], -1, ln)
+                ln = {k: v for k, v in ln.items() if v}
+                off = {k: v for k, v in linear.linear(f, src[2][1]).items() if v}
+                ok = ln == off and bool(ln)
+                detail = "copy of %s bytes from next_in - %s" % (ln, off)
+        ck.decide(ok, R, "deflate_stored:refresh#%d" % i, "source = next_in - (length of the copy)",
+                  "deflate_stored refreshes the window from a source that does not end at next_in (%s): the window receives older input than "
+                  "the bytes just consumed, so the retrievable dictionary and later matches refer to the wrong history" % detail, where(f, c.line))
